@@ -98,7 +98,7 @@ class C08(diffcheck.DiffProp):
     pid = "C08"
     manifest = dict(
         text="Coq: a reference semantics of files (pread/pwrite with zero-filled holes, cursor, O_APPEND, ftruncate, vectored forms as sequential composition), pipes (FIFO with capacity and EOF), open-option flag composition and a small POSIX name space, with machine-checked laws (write-then-read, truncate/extend, append positions, vectored = sequential), and a GLUE theorem over compio's buffer-view model: for every buffer shape (Vec with len <= cap, slice / uninit views, vectored layouts) and every OS answer n <= offered length the BufResult and buffer are exactly what the reference predicts (bytes at the start of the offered window, everything else untouched, length = max(old, n)); the mapping is one function of the OS answer for all three drivers. Tie to the code: every generated operation sequence is executed four ways (compio-fs on io_uring, on the polling driver, on io_uring with the fs opcodes forced onto the thread-pool fallback, and std::fs/libc) in fresh directories and by the extracted reference; all five must agree token for token.",
-        note="PARTIAL. PROVED (Coq, no axioms): self-consistency laws of the reference; the glue (offered ranges, map_advanced / map_vec_advanced length rule incl. vectored distribution, u32 clamp on io_uring never offers more than the buffer, open-flag table total and equal to std's OpenOptions) maps ANY OS answer to the reference's prediction; driver independence of that mapping IN THE MODEL. ONLY OBSERVED (differential run, sampled operation sequences on this kernel/file system, uid 0): that the kernel behaves like the reference, that the three compio code paths (ring SQE, readiness + syscall / blocking pool, call_blocking fallback) agree with each other and with the OS, the name-space utilities (create_dir(_all), remove_*, rename, hard_link, symlink, metadata, set_permissions), error kinds. The fallback of Read/Write/Readv/Writev/Fsync cannot be forced (call_blocking is unreachable!() for them); run C forces it for OpenAt, Close, Statx, Ftruncate, UnlinkAt, MkDirAt, RenameAt, SymlinkAt, LinkAt, Pipe through the cfg(compio_verif) hook compio_driver::verif_mask. compio-fs has no OpenOptions::append (O_APPEND goes through custom_flags). Vectored reads into members that are not in sequential-fill order fall under C10's known finding (advance_vec_to no-op); the model is faithful to the code there and the OS comparison ignores Vec lengths. Pipes are kept below 4 KiB in flight (capacity effects belong to C20). Trusted: Coq kernel, extraction + driver, harness/rt/src/bin/c08.rs, tools/gen_c08.py, tools/p_c08.py.",
+        note="PARTIAL. PROVED (Coq, no axioms): self-consistency laws of the reference; the glue (offered ranges, map_advanced / map_vec_advanced length rule incl. vectored distribution, u32 clamp on io_uring never offers more than the buffer, open-flag table total and equal to std's OpenOptions) maps ANY OS answer to the reference's prediction; driver independence of that mapping IN THE MODEL. ONLY OBSERVED (differential run, sampled operation sequences on this kernel/file system, uid 0): that the kernel behaves like the reference, that the three compio code paths (ring SQE, readiness + syscall / blocking pool, call_blocking fallback) agree with each other and with the OS, the name-space utilities (create_dir(_all), remove_*, rename, hard_link, symlink, metadata, set_permissions), error kinds. The fallback of Read/Write/Readv/Writev/Fsync cannot be forced (call_blocking is unreachable!() for them); run C forces it for OpenAt, Close, Statx, Ftruncate, UnlinkAt, MkDirAt, RenameAt, SymlinkAt, LinkAt, Pipe through the cfg(compio_verif) hook compio_driver::verif_mask. compio-fs has no OpenOptions::append (O_APPEND goes through custom_flags). Vectored reads into members that are not in sequential-fill order fall under C10's known finding (advance_vec_to no-op); the model is faithful to the code there and the OS comparison ignores Vec lengths. Pipes are kept below 4 KiB in flight (capacity effects belong to C20). Sequential (cursor) file operations are exercised through compio_runtime::fd::AsyncFd over a dup of the compio-opened descriptor (compio_fs::File itself is positional only). Known finding C08-iour-zero-length-read-of-directory: a zero-length read through a directory handle is Ok(0) on the kernel's ring and IsADirectory through read(2)/pread(2) (kernel behaviour passed through by compio). Trusted: Coq kernel, extraction + driver, harness/rt/src/bin/c08.rs, tools/gen_c08.py, tools/p_c08.py.",
         technique="Coq glue proof over a reference specification + 4-way differential correspondence (io_uring / polling / forced thread-pool fallback / std+libc) against the extracted reference")
     prop_file = "prop/C08.v"
     model_name = "c08"
